@@ -24,7 +24,8 @@ LEVEL_NOTE = ("Trusted: Coq kernel, Go harness + Python glue. Modelled, not veri
               "safepoint controller's session tracking (represented by: every put/read/commit during a collection reports to the keeper and blocks "
               "while finalizing). The references of a chunk are C09's walker: an address the walker omits is invisible to this model too — the "
               "end-to-end consequence of F2 is checked by the harness (revert series continued after a collection).")
-THEOREMS = ["mark_complete", "mark_is_reach", "fuel_enough", "gc_safe_sequential", "gc_safe_concurrent", "novel_survives"]
+THEOREMS = ["mark_complete", "mark_is_reach", "fuel_enough", "gc_safe_sequential", "gc_safe_concurrent", "novel_survives",
+            "gc_generational_safe", "oldgen_filter_needs_closed", "oracle_on_model"]
 RULE = ("on-disk repositories built through SQL (C09's six scenarios × options) plus a deleted branch as garbage; `call dolt_gc` in modes default, "
         "--full, --shallow, --archive-level=0/1; a third of the cases with a concurrent writer session committing on its own branch; one recipe "
         "continues a revert series after the collection; non-trivial = the pre-collection graph has at least 20 chunks; distinct by recipe")
@@ -32,7 +33,8 @@ ASSUMPTIONS = ["single process, in-process SQL engine over an on-disk repository
                "read-back fingerprint = fixed list of queries over every branch (tables, status, merge status, conflicts, rebase plan, log, hashes), "
                "tags and stashes, from a fresh session"]
 REQUIRED_TAGS = ["mode-default", "mode-full", "mode-shallow", "mode-archive", "concurrent", "concurrent-acked", "garbage-dropped",
-                 "scn-merge", "scn-cherry", "scn-revert", "scn-rebase", "scn-rebase_conflict", "continue-after-gc"]
+                 "scn-merge", "scn-cherry", "scn-revert", "scn-rebase", "scn-rebase_conflict", "continue-after-gc",
+                 "continue-merge", "continue-cherry", "continue-rebase", "continue-rebase_conflict", "remote-tracking-refs"]
 HARNESS_TIMEOUT = 2400
 COQ_SHARD = 12
 
@@ -41,7 +43,9 @@ MODES = ["", "--full", "--shallow", "--archive-level=0", "--archive-level=1"]
 
 
 def gen_cases(rng, tier):
-    cases = [{"dropx": True, "cont": "revert", "mode": ""}]
+    cases = [{"dropx": True, "cont": "revert", "mode": ""},                      # F2 regression (repaired)
+             {"confbase": True, "cont": "conflicts_read", "mode": ""},         # witness of the ConflictMetadata.bc finding
+             {"confbase": True, "cont": "conflicts_read", "mode": "--shallow"}]  # control: no sweep
     n = 3 if tier == "quick" else 40
     for scn in SCNS:
         for j in range(n):
@@ -50,7 +54,10 @@ def gen_cases(rng, tier):
                 c[k] = rng.random() < 0.4
             if scn == "revert":
                 c["pending"] = rng.random() < 0.6
+            c["remote"] = rng.random() < 0.5
             c["concurrent"] = (j == 2) or rng.random() < 0.15
+            if scn in ("merge", "cherry", "rebase", "rebase_conflict") and not c["concurrent"]:
+                c["cont"] = "resolve"        # finish the in-progress operation after the collection
             if c["concurrent"] and c["mode"] == "--shallow":
                 c["mode"] = ""
             cases.append(c)
@@ -80,7 +87,7 @@ def classify(case, out):
     o = out.get("obs")
     if o is None or out.get("panic") or out.get("err"):
         return ["panic-or-error"]
-    t = ["scn-" + case.get("scn", "dropx")]
+    t = ["scn-" + case.get("scn", "confbase" if case.get("confbase") else "dropx")]
     m = case.get("mode", "")
     t.append({"": "mode-default", "--full": "mode-full", "--shallow": "mode-shallow"}.get(m, "mode-archive"))
     if case.get("concurrent"):
@@ -91,6 +98,10 @@ def classify(case, out):
         t.append("script-error")
     if o.get("gc_err"):
         t.append("gc-error")
+    if case.get("remote"):
+        t.append("remote-tracking-refs")
+    if case.get("cont") == "resolve":
+        t.append("continue-" + case.get("scn", "?"))
     if case.get("cont"):
         t.append("continue-after-gc")
         if o.get("cont_err"):
@@ -136,6 +147,16 @@ def neighbours(case, rng):
 
 
 def match_known(finding, case, out):
-    # F2 was repaired (WalkAddrs reports merge_state.pending_commit_hashes); nothing is suppressed.  The recipe
-    # {"dropx": true, "cont": "revert"} (first case of gen_cases) stays as an always-run regression case.
-    return False
+    # F2 was repaired (WalkAddrs reports merge_state.pending_commit_hashes); nothing of it is suppressed.
+    # Open: committed conflicts whose base root-ish (JSON in the artifact value, never walked) is a commit reachable
+    # from nothing else: after the collection dolt_conflicts_t cannot be read.
+    o = out.get("obs")
+    if not o or finding.get("key") != "dolt_gc:ConflictMetadata.bc":
+        return False
+    if not case.get("confbase") or case.get("cont") != "conflicts_read":
+        return False
+    if not (o.get("kept") and o.get("post_closed") and o.get("acked")) or o.get("gc_err"):
+        return False
+    if any("dolt_conflicts_t" not in d for d in (o.get("fp_diff") or [])):
+        return False
+    return "head value is nil" in (o.get("cont_err") or "")
